@@ -100,8 +100,13 @@ TrFix == /\ IsEvent("fix")
          /\ UNCHANGED <<cur, st, refbad>>
 TrDe == /\ IsEvent("de")
         /\ IF P = "C04" /\ HasRoot(ev.root) /\ <<"de_ref", ev.root, ev.plan, ev.style>> \notin refbad
-           THEN /\ Report(IF ~ev.ok THEN {V("instance_deserialises", ev.root \o "/" \o ev.plan \o "/" \o ev.style, "Ok", "Err: " \o ev.debug)}
-                          ELSE DocViol("lossless", ev.root, ev.plan, ev.plan \o "/" \o ev.style, ev.info))
+           THEN /\ LET vs == IF ~ev.ok THEN {V("instance_deserialises", ev.root \o "/" \o ev.plan \o "/" \o ev.style, "Ok", "Err: " \o ev.debug)}
+                             ELSE DocViol("lossless", ev.root, ev.plan, ev.plan \o "/" \o ev.style, ev.info)
+                       \* D27: the documented carrier of the unbounded integer types is i32
+                       d27 == "D27" \in Dev /\ ev.plan = "wide" /\ HasWide(S, RootComp(ev.root), 4)
+                   IN IF d27 THEN (\A v \in vs : PrintT(<<"KNOWN", ToJson(v @@ [devs |-> {"D27"}])>>))
+                                  /\ (vs = {} => PrintT(<<"STALE", ToJson(V("instance_deserialises", ev.root \o "/wide", "Err (D27)", "Ok"))>>))
+                      ELSE Report(vs)
                 /\ Count1
            ELSE TRUE
         /\ UNCHANGED <<cur, st, refbad>>
